@@ -23,7 +23,7 @@ def check(run, tier):
     for dev in ("evo", "fluent"):
         progs += targeted.worklist_programs(dev) + targeted.permutation_programs(dev, 3 if q else 4) + targeted.reject_programs(dev)
         progs += [p for p in targeted.split_programs(dev) if "multidisp" not in p["id"]]
-        progs += [p for p in targeted.round2_programs(dev) if "nosplit" in p["id"] or "same-format" in p["id"]]
+        progs += [p for p in targeted.round2_programs(dev) if "nosplit" in p["id"] or "same-format" in p["id"] or "mix-in-place" in p["id"]]
     for dev in ("evo", "fluent"):
         progs += [p for p in targeted.config_programs(dev) if "diti" in p["id"] or "autosplit" in p["id"]]
     for dev in ("evo", "fluent"):
